@@ -10,9 +10,27 @@ G == INSTANCE Guard
 vars == <<vals, dead>>
 H(t) == Traces[t].hdr
 Ev(t) == Traces[t].ev
+(* the start-up: blocks initialise each other by events, in whatever order; the model does  *)
+(* not predict that cascade, but the rule itself is checked on the recorded nesting: a     *)
+(* block that is handling an event (enter .. leave/fail) is entered again only inside its  *)
+(* own initialisation window (ib .. ie: the documented "initialisation by an event") - any *)
+(* other attempt is refused at once (enter immediately followed by fail)                   *)
+RECURSIVE ScanOk(_, _, _, _)
+ScanOk(lg, i, act, ini) ==
+    IF i > Len(lg) THEN TRUE
+    ELSE LET x == lg[i]  b == lg[i][2] IN
+         CASE x[1] = "enter" -> /\ \/ act[b] = 0 \/ b \in ini
+                                   \/ (i < Len(lg) /\ lg[i + 1][1] = "fail" /\ lg[i + 1][2] = b)
+                                /\ ScanOk(lg, i + 1, [act EXCEPT ![b] = @ + 1], ini)
+           [] x[1] \in {"leave", "fail"} -> ScanOk(lg, i + 1, [act EXCEPT ![b] = @ - 1], ini)
+           [] x[1] = "ib" -> ScanOk(lg, i + 1, act, ini \cup {b})
+           [] x[1] = "ie" -> ScanOk(lg, i + 1, act, ini \ {b})
+           [] OTHER -> FALSE
+Startup(e) == ScanOk(e.log, 1, [b \in 1..Len(H(tid).kind) |-> 0], {})
 TraceInit == tid \in 1..NTraces /\ l = 1 /\ vals = H(tid).vals /\ dead = FALSE
 Step == /\ l <= Len(Ev(tid)) /\ ~dead
         /\ LET e == Ev(tid)[l] IN
+           IF e.ev = "startup" THEN Startup(e) /\ l = 1 /\ dead' = e.cerr /\ UNCHANGED vals ELSE
              /\ e.ev = "ext"
              /\ e.locked = <<>>                         \* every block accepts events again
              /\ IF e.bad # "none"
